@@ -3,7 +3,10 @@
 package checks
 
 import (
+	"io"
+
 	"fmt"
+	"github.com/compose-spec/compose-go/v2/dotenv"
 	"os"
 	"path/filepath"
 	"reflect"
@@ -17,6 +20,23 @@ import (
 	"verif/harness/internal/core"
 	"verif/harness/internal/proj"
 )
+
+// an env_file format of the application's own ("raw": KEY=VALUE lines taken literally), registered once at start-up
+func init() {
+	dotenv.RegisterFormat("raw", func(r io.Reader, _ string, _ func(string) (string, bool)) (map[string]string, error) {
+		b, err := io.ReadAll(r)
+		if err != nil {
+			return nil, err
+		}
+		out := map[string]string{}
+		for _, l := range strings.Split(string(b), "\n") {
+			if k, v, ok := strings.Cut(l, "="); ok {
+				out[k] = v
+			}
+		}
+		return out, nil
+	})
+}
 
 func init() { Register("C09", "model_checking", C09) }
 
@@ -195,6 +215,7 @@ func C09(c *core.Ctx) {
 	var events []c09Event
 	fieldSeen := map[string]bool{}
 	loaded := 0
+	var unloadable []string // rows of the edge table that do not load under the default variant: they test nothing
 	for _, sd := range docs {
 		for _, vr := range variants {
 			if c.Quick() && vr.name != "default" && !strings.HasPrefix(sd.name, "render:") && sd.name != "full-example" {
@@ -213,6 +234,9 @@ func C09(c *core.Ctx) {
 			if err != nil {
 				if sd.name == "full-example" {
 					c.Logf("full-example (%s) does not load here: %v", vr.name, err)
+				}
+				if strings.HasPrefix(sd.name, "render:") && vr.name == "default" {
+					unloadable = append(unloadable, sd.name+": "+err.Error())
 				}
 				continue // not a loadable model under this variant: not a subject of the round trip
 			}
@@ -314,6 +338,10 @@ func C09(c *core.Ctx) {
 	c.Set("service_fields_total", reflect.TypeOf(types.ServiceConfig{}).NumField())
 	if len(events) > 0 {
 		c.Sample(events[0])
+	}
+	c.Set("edge_rows_not_loadable", unloadable)
+	for _, u := range unloadable {
+		c.Logf("edge row does not load: %s", u)
 	}
 	c.Logf("%d models, %d loaded variants, %d round trips; %d/%d service fields non-zero at least once", len(docs), loaded, len(events), len(fieldSeen), reflect.TypeOf(types.ServiceConfig{}).NumField())
 	c.Set("rule", "a case is one round trip Load -> Marshal -> Load -> Marshal of a model from the specification's tables (or the repository's full example), in YAML and in JSON, with default options (and without normalisation / path resolution for the custom-marshaller table); all non-trivial")
